@@ -56,7 +56,7 @@ def gen_angle02pi(rng):
     k = rng.random()
     if k < 0.25:
         # octant boundaries and their neighbourhoods
-        base = rng.randint(0, 7) * (PI / 4)
+        base = rng.randint(0, 8) * (PI / 4)    # 8: just below 2 pi (clamped into [0, 2 pi))
         return min(max(base + rng.choice([0.0, 1e-9, -1e-9, 1e-4, -1e-4]), 0.0), math.nextafter(TWO_PI, 0))
     return rng.uniform(0, math.nextafter(TWO_PI, 0))
 
@@ -81,7 +81,7 @@ def run(ctx: Ctx):
     leancheck(ctx, "C07")
     ctx.rule = ("elements: a in [6600 km, 60000 km], e in [0.001, 0.95] (log-dense at small e, both ends), i in [0.01, pi-0.01] "
                 "(incl. polar, both ends, retrograde), Omega/omega/E in [0, 2pi) with octant boundaries and +-1e-9/1e-4 "
-                "neighbourhoods; shapes (6,), (1,6), (n,6); both directions. Histories (every second case): 1-6 objects, 4-14 "
+                "neighbourhoods; shapes (6,), (1,6), (n,6); both directions. Histories (after every second case, thorough tier: fourth): 1-6 objects, 4-14 "
                 "operations out of PosVel(...), to_system, obj[int|slice] views (and views of views), obj[[rows]] copies, "
                 "obj[key] = values with key int / slice / : / (row, column) / list of rows, written to the source, to a view, "
                 "to a view of a view, to the conversion handed out or to a view of it; 8 scripted shapes of the pattern convert -> "
@@ -117,6 +117,7 @@ def run(ctx: Ctx):
     run_corpus(ctx, "C07", sort_corpus)
     for c in hist_corpus:
         history_case(ctx, "corpus", recorded=c)
+    every = ctx.budget(2, 4)     # a history after every second (thorough tier: fourth) case
     for gi in range(len(corpus) + n):
         if gi < len(corpus):
             shape, els = corpus[gi]["shape"], [list(map(float, r)) for r in corpus[gi]["elements"]]
@@ -139,8 +140,8 @@ def run(ctx: Ctx):
             gviolate(ctx, f"raises:{type(e).__name__}", f"kepler/trs conversion raised {type(e).__name__}: {e}", case)
         if gi % 29 == 0:
             check_gm_sources(ctx)
-        if gi % 2 == 0:
-            history_case(ctx, c07_hist.TEMPLATES[(gi // 2) % len(c07_hist.TEMPLATES)])
+        if gi % every == 0:
+            history_case(ctx, c07_hist.TEMPLATES[(gi // every) % len(c07_hist.TEMPLATES)])
     check_gm_sources(ctx)
     ctx.traces = ctx.evaluations
 
